@@ -11,7 +11,13 @@ def fail_items(rng, n):
     """workflows whose expressions cannot be evaluated at run time, or whose steps misbehave"""
     items = []
     kinds = ['omitted-optional-input', 'index-out-of-range', 'failing-conversion', 'float-nan-to-int', 'bad-step-data',
-             'arithmetic-on-strings', 'omitted-optional-in-step-input', 'missing-map-key', 'arithmetic-on-plugin-integers']
+             'arithmetic-on-strings', 'omitted-optional-in-step-input', 'missing-map-key', 'arithmetic-on-plugin-integers',
+             'failing-conversion-in-wait-optional', 'failing-conversion-in-soft-optional', 'index-out-of-range-in-wait-optional']
+    # kinds whose expression is certainly evaluated and certainly cannot be: the run must end with an error
+    certain = {'omitted-optional-input', 'index-out-of-range', 'failing-conversion', 'missing-map-key',
+               'failing-conversion-in-wait-optional', 'index-out-of-range-in-wait-optional'}
+    # (a soft-optional expression is legitimately absent when its group node has not been processed by the time the
+    #  consumer is evaluated, so for it only the monitor's rule applies: IF the evaluation failed, the run ends in an error)
     for i in range(n):
         kind = kinds[i % len(kinds)]
         wf = {'steps': {}, 'outputs': {}}
@@ -32,6 +38,11 @@ def fail_items(rng, n):
             bad = fexpr('$.steps.a.outputs.success.l[5]', ['steps.a.outputs.success.l'])
         elif kind == 'failing-conversion':
             bad = fexpr('stringToInt($.steps.a.outputs.success.tok)', ['steps.a.outputs.success.tok'])
+        elif kind in ('failing-conversion-in-wait-optional', 'failing-conversion-in-soft-optional'):
+            # the optional dependency IS produced; only the conversion applied to it fails
+            bad = {'t': 'opt', 'wait': 'wait' in kind, 'e': fexpr('stringToInt($.steps.a.outputs.success.tok)', ['steps.a.outputs.success.tok'])}
+        elif kind == 'index-out-of-range-in-wait-optional':
+            bad = {'t': 'opt', 'wait': True, 'e': fexpr('$.steps.a.outputs.success.l[7]', ['steps.a.outputs.success.l'])}
         elif kind == 'float-nan-to-int':
             bad = fexpr('floatToInt(stringToFloat("NaN"))', [])
         elif kind == 'arithmetic-on-strings':
@@ -58,11 +69,20 @@ def fail_items(rng, n):
         if rng.random() < 0.5:
             wf['outputs']['failure'] = tmap({'why': ref('steps.a.outputs.error.reason')})
         items.append({'wf': wf, 'oc': oc, 'script': script, 'input': inp, 'schedule': gen.noise_schedule(rng), 'kind': kind,
-                      'nomeaning': True})
+                      'nomeaning': True, 'must_error': kind in certain, 'at': kind})
     return items
 
 
 def run(ctx):
     prof = dict(max_steps=3, p_tag=0.1, engine_outputs=True, p_crash=0.2, p_deployfail=0.15, p_error=0.2)
-    n = 16 if ctx.quick else 160
-    family.run_family_check(ctx, 'C07', n_quick=16, n_thorough=120, profile=prof, extra_items=lambda rng: fail_items(rng, n))
+    n = 24 if ctx.quick else 180
+    items, _, _ = family.run_family_check(ctx, 'C07', n_quick=16, n_thorough=120, profile=prof, extra_items=lambda rng: fail_items(rng, n))
+    import engine_check
+    for it in items:
+        res = it.get('_result')
+        if not it.get('must_error') or not res or res.get('watchdog') or not res.get('runs'):
+            continue
+        got = engine_check.engine_outcome(res['runs'][0])
+        if got != 'error':
+            ctx.add('C07', 'unevaluable-expression-did-not-end-the-run-with-an-error', '%s: run returned output %s' % (it['kind'], got),
+                    {'kind': 'scenario', 'item': {k: it[k] for k in ('wf', 'oc', 'script', 'input', 'schedule') if k in it}})
